@@ -9,11 +9,16 @@ package server
 // and frame a client receives must be the answer to one of its own outstanding questions.
 
 import (
+	"bytes"
 	"context"
+	"encoding/base64"
 	"encoding/binary"
 	"fmt"
 	"io"
 	"net"
+	"net/http"
+	"net/http/httptest"
+	"net/url"
 	"os"
 	"strings"
 	"sync"
@@ -334,6 +339,111 @@ func TestVerifC10Sockets(t *testing.T) {
 		if stats["udp-answered"] > 50 {
 			vfstat.NonTrivial(U, fmt.Sprint(p))
 			vfstat.Sample(U, fmt.Sprint(p.Workers, p.TCPConns > 0), map[string]any{"params": fmt.Sprintf("%+v", p), "stats": stats})
+		}
+	})
+}
+
+// TestVerifC10DoH drives the DoH handler (Server.ServeHTTP, wire-format POST / GET and the JSON form) over plain
+// HTTP/1.1 keep-alive connections shared by many goroutines: every HTTP exchange must carry the answer to the
+// question asked in that exchange and nothing else.
+func TestVerifC10DoH(t *testing.T) {
+	defer vfstat.Flush()
+	vfstat.Quiet()
+	const U = "C10.doh"
+	dir, _ := os.MkdirTemp(os.Getenv("VERIF_WORKDIR"), "c10h")
+	defer os.RemoveAll(dir)
+	rapid.Check(t, func(rt *rapid.T) {
+		workers := rapid.IntRange(4, 24).Draw(rt, "goroutines")
+		per := rapid.SampledFrom([]int{30, 100, 250}).Draw(rt, "per")
+		ring := rapid.SampledFrom([]int{1, 4, 16}).Draw(rt, "ring")
+		cfg := vfBaseConfig(dir)
+		cfg.RateLimit, cfg.ClientRateLimit = 0, 0
+		stub := &vfC10Stub{}
+		s, done := vfBuildServerWith(cfg, stub)
+		defer done()
+		hs := httptest.NewServer(s)
+		defer hs.Close()
+		client := hs.Client()
+		var viol atomic.Pointer[string]
+		report := func(f string, a ...any) {
+			s := fmt.Sprintf(f, a...)
+			viol.CompareAndSwap(nil, &s)
+		}
+		var ok200, other atomic.Int64
+		var wg sync.WaitGroup
+		for g := 0; g < workers; g++ {
+			wg.Add(1)
+			go func(g int) {
+				defer wg.Done()
+				kinds := []string{"hit", "miss", "hit", "miss", "hit", "slow", "hit", "drop", "hit", "miss", "big", "hit", "panic", "miss"}
+				for k := 0; k < per && viol.Load() == nil; k++ {
+					kind := kinds[(k+g)%len(kinds)]
+					name := fmt.Sprintf("%s-h%d-%d.doh.test.", kind, g, k)
+					if kind == "hit" {
+						name = fmt.Sprintf("hit-h%d-%d.doh.test.", g, k%ring)
+					}
+					id := uint16(g<<8 | k&0xff)
+					m := new(dns.Msg)
+					m.SetQuestion(name, dns.TypeTXT)
+					m.Id = id
+					m.SetEdns0(4096, false)
+					raw, _ := m.Pack()
+					var resp *http.Response
+					var err error
+					form := (k + g) % 3
+					switch form {
+					case 0:
+						resp, err = client.Post(hs.URL+"/dns-query", "application/dns-message", bytes.NewReader(raw))
+					case 1:
+						resp, err = client.Get(hs.URL + "/dns-query?dns=" + base64.RawURLEncoding.EncodeToString(raw))
+					default:
+						resp, err = client.Get(hs.URL + "/dns-query?name=" + url.QueryEscape(name) + "&type=TXT")
+					}
+					if err != nil {
+						other.Add(1)
+						continue
+					}
+					body, _ := io.ReadAll(resp.Body)
+					resp.Body.Close()
+					if resp.StatusCode != 200 {
+						other.Add(1)
+						if bytes.Contains(bytes.ToLower(body), []byte(".doh.test")) && !bytes.Contains(bytes.ToLower(body), []byte(strings.ToLower(strings.TrimSuffix(name, ".")))) {
+							report("goroutine %d: HTTP %d body for %s mentions another exchange's name: %.120q", g, resp.StatusCode, name, body)
+						}
+						continue
+					}
+					ok200.Add(1)
+					who := fmt.Sprintf("DoH exchange (goroutine %d, request %d, form %d)", g, k, form)
+					if form == 2 {
+						lower := strings.ToLower(string(body))
+						if !strings.Contains(lower, strings.ToLower(strings.TrimSuffix(name, "."))) {
+							report("%s: JSON body does not mention the question %s: %.160q", who, name, body)
+						}
+						for _, part := range strings.Split(lower, ".doh.test") {
+							if i := strings.LastIndexAny(part, "\":| "); i >= 0 {
+								part = part[i+1:]
+							}
+							if strings.Contains(part, "-h") && !strings.HasSuffix(strings.ToLower(strings.TrimSuffix(name, ".doh.test.")), part) && !strings.HasSuffix(part, strings.ToLower(strings.TrimSuffix(name, ".doh.test."))) {
+								report("%s: JSON body for %s mentions another exchange's name %q", who, name, part)
+							}
+						}
+						continue
+					}
+					if _, bad := vfC10Check(who, body, map[uint16]string{id: name}); bad != "" {
+						report("%s", bad)
+					}
+				}
+			}(g)
+		}
+		wg.Wait()
+		if v := viol.Load(); v != nil {
+			rt.Fatalf("%s\n  goroutines=%d per=%d ring=%d ok=%d other=%d", *v, workers, per, ring, ok200.Load(), other.Load())
+		}
+		vfstat.Eval(U, 1)
+		if ok200.Load() > 100 {
+			vfstat.NonTrivial(U, fmt.Sprint(workers, per, ring))
+			vfstat.Class(U, "concurrent-http-exchanges")
+			vfstat.Sample(U, fmt.Sprint(workers > 12), map[string]any{"goroutines": workers, "requests_each": per, "answered_200": ok200.Load(), "other_status": other.Load()})
 		}
 	})
 }
